@@ -8,8 +8,9 @@ Import ListNotations.
 Theorem scan_covers_refs : forall o, In o interned_ops -> In o scanned_ops.
 Proof. exact scan_covers_refs_l. Qed.
 
-(* ... it looks through the JIT header, follows referenced shadowed slots, and a failed build restores the map
-   (all four read from /repo into gen/Gen_C06.v by the translator on every run) *)
+(* ... it looks through the JIT header, follows referenced shadowed slots, starts its walk through the heap from
+   cleared mark bits, and a failed build restores the map (all five read from /repo into gen/Gen_C06.v by the
+   translator on every run) *)
 Theorem C06_config_now_sound : config_sound cfg_now.
 Proof. exact config_now_sound. Qed.
 
@@ -27,14 +28,14 @@ Proof. exact Bound_now. Qed.
    of any earlier closure), takes no slot away from a live binding, and the slots its defines will write were
    owned by no binding before. *)
 Theorem C06_redefine_local : forall c e fs, Bound e -> c_snapshot c = true ->
-  globals (fst (build c e fs)) = globals e /\
+  globals (fst (build c e fs)) = globals e /\ heap (fst (build c e fs)) = heap e /\
   (forall s b, owner_of e s = Some b -> owner_of (fst (build c e fs)) s = Some b) /\
   Forall (slot_unowned e) (snd (first_pass e fs)).
 Proof. exact redefine_local_l. Qed.
 
 (* set! writes exactly the slot of the binding (and yields the old value) *)
-Theorem C06_set_visible : forall fuel g s b n, s < length g ->
-  eval fuel g (RSet s b (RConst n)) = (set_nth s (VInt n) g, Some (nth s g VVoid)) /\
+Theorem C06_set_visible : forall fuel g hp s b n, s < length g ->
+  eval fuel (g, hp) (RSet s b (RConst n)) = ((set_nth s (VInt n) g, hp), Some (nth s g VVoid)) /\
   nth s (set_nth s (VInt n) g) VVoid = VInt n /\
   (forall t, t <> s -> nth t (set_nth s (VInt n) g) VVoid = nth t g VVoid).
 Proof. exact set_visible_l. Qed.
@@ -60,6 +61,23 @@ Proof. exact scan_without_header_refuted_l. Qed.
 
 Theorem C06_scan_without_follow_refuted : exists h, ~ Bound (fst (run_history cfg_no_follow 10 eng_new h)).
 Proof. exact scan_without_follow_refuted_l. Qed.
+
+(* the recycler's walk uses the heap mark bits as its visited set: started from stale (set) bits, a closure held only
+   in a box is never scanned *)
+Theorem C06_scan_with_stale_marks_refuted : exists h, ~ Bound (fst (run_history cfg_stale_marks 10 eng_new h)).
+Proof. exact scan_with_stale_marks_refuted_l. Qed.
+
+(* [Bound] covers the heap: the contents of every cell a stored value mentions are well bound *)
+Theorem C06_bound_cells : forall e s a, Bound e -> In a (cells_in (nth s (globals e) VVoid)) -> a < length (heap e) ->
+  val_ok e (nth a (heap e) VVoid).
+Proof. exact Bound_cell. Qed.
+
+Example C06_heap_nonvacuous :
+  let e := fst (run_history cfg_now 10 eng_new h_stale_marks) in
+  threshold (fl (sm e)) <> initial_threshold /\ free (fl (sm e)) <> [] /\
+  nth 2 (globals e) VVoid = VRef 0 /\ val_okb e (nth 0 (heap e) VVoid) = true /\
+  (exists h b c, nth 0 (heap e) VVoid = VClo h b c /\ b <> []).
+Proof. exact heap_nonvacuous_l. Qed.
 
 (* non-vacuity: a history with a recycling round after which a stored closure still refers to a shadowed binding *)
 Example C06_nonvacuous :
